@@ -50,6 +50,42 @@ def Trk.IdleList : List (Trk ℝ S E P) → Prop
   | t :: ts => Trk.Idle t ∧ Trk.IdleList ts
 end
 
+/-! ### scenes without spatial tracks
+
+  The spatial part of `Track::read_commands` is the hook `Comps.spStart` (run by `Trk.onStart`) and the
+  spatialisation is `Comps.spStep`: the C11 statements are about scenes WITHOUT spatial tracks
+  (`TrkData.Settled` demands `spatial = none`; with a moving listener buffer-size invariance is false bit-wise,
+  see notes/C15.md), so the hooks never run.  `NoSpatial` is that exclusion on its own: it is kept by
+  rendering and by `on_start_processing`, whatever else happens to the tracks. -/
+
+mutual
+/-- no track of the subtree (the track, its children in the arena) is a spatial track -/
+def Trk.NoSpatial : Trk ℝ S E P → Prop
+  | .node d children _ => d.spatial = none ∧ Trk.NoSpatialList children
+def Trk.NoSpatialList : List (Trk ℝ S E P) → Prop
+  | [] => True
+  | t :: ts => Trk.NoSpatial t ∧ Trk.NoSpatialList ts
+end
+
+/-- no sub-track in the arena, at any depth, is a spatial track -/
+def Mixer.NoSpatial (m : Mixer ℝ S E P) : Prop := Trk.NoSpatialList m.subTracks
+
+theorem Trk.Settled.noSpatial (t : Trk ℝ S E P) : Trk.Settled t → Trk.NoSpatial t := by
+  refine Trk.rec (motive_1 := fun t => Trk.Settled t → Trk.NoSpatial t)
+    (motive_2 := fun ts => Trk.SettledList ts → Trk.NoSpatialList ts) ?_ ?_ ?_ t
+  · intro d c p ihc _ h; exact ⟨h.1.2.2.2, ihc h.2⟩
+  · intro _; trivial
+  · intro t ts iht ihts h; exact ⟨iht h.1, ihts h.2⟩
+
+theorem Trk.SettledList.noSpatial (ts : List (Trk ℝ S E P)) (h : Trk.SettledList ts) : Trk.NoSpatialList ts := by
+  induction ts with
+  | nil => trivial
+  | cons t ts ih => exact ⟨Trk.Settled.noSpatial t h.1, ih h.2⟩
+
+/-- a settled mixer (`Mixer.Settled`, part of `Renderer.Quiet`) has no spatial track -/
+theorem Mixer.Settled.noSpatial {m : Mixer ℝ S E P} (h : Mixer.Settled m) : Mixer.NoSpatial m :=
+  Trk.SettledList.noSpatial _ h.subs
+
 theorem Trk.readCommands_idle (d : TrkData ℝ S E P) (h : d.Idle) : Trk.readCommands d = d := by
   obtain ⟨h1, h2, h3, h4, _, _⟩ := h
   have hr : d.routes.map (fun (r : Route ℝ) => ({ r with volume := readCommand r.volume r.cmd, cmd := none } : Route ℝ)) = d.routes := by
@@ -76,14 +112,15 @@ theorem filter_not_finished_on {IS : S → Prop} (fin : S → Bool) (l : List S)
   rw [List.filter_eq_self]; intro s hs; simp [hf s (h s hs)]
 
 theorem Trk.onStart_idle_on {IS : S → Prop} {IE : E → Prop} (hN : C.StartNeutralOn IS IE) (t : Trk ℝ S E P) :
-    Trk.Idle t → Trk.CompsOk IS IE t → Trk.onStart C t = t := by
-  refine Trk.rec (motive_1 := fun t => Trk.Idle t → Trk.CompsOk IS IE t → Trk.onStart C t = t)
-    (motive_2 := fun ts => Trk.IdleList ts → Trk.CompsOkList IS IE ts → Trk.onStartKept C ts = ts) ?_ ?_ ?_ t
-  · intro d children pending ihc _ h hc
+    Trk.Idle t → Trk.NoSpatial t → Trk.CompsOk IS IE t → Trk.onStart C t = t := by
+  refine Trk.rec (motive_1 := fun t => Trk.Idle t → Trk.NoSpatial t → Trk.CompsOk IS IE t → Trk.onStart C t = t)
+    (motive_2 := fun ts => Trk.IdleList ts → Trk.NoSpatialList ts → Trk.CompsOkList IS IE ts →
+      Trk.onStartKept C ts = ts) ?_ ?_ ?_ t
+  · intro d children pending ihc _ h hns hc
     obtain ⟨hd, hp, hcl⟩ := h
     obtain ⟨hdc, hcc⟩ := hc
     subst hp
-    rw [Trk.onStart, Trk.readCommands_idle d hd, ihc hcl hcc]
+    rw [Trk.onStart, Trk.readCommands_idle d hd, ihc hcl hns.2 hcc]
     have hs : (removeAndAdd C.sndFinished d.sounds d.pendingSounds).map C.sndStart = d.sounds := by
       rw [hd.2.2.2.2.1]
       simp only [removeAndAdd, List.reverse_nil, List.nil_append]
@@ -92,27 +129,30 @@ theorem Trk.onStart_idle_on {IS : S → Prop} {IE : E → Prop} (hN : C.StartNeu
     have he : d.effects.map C.fxStart = d.effects := map_id_of _ _ (fun e he => hN.fx e (hdc.2 e he))
     rw [hs, he]
     have hps := hd.2.2.2.2.1
+    have hsp : d.spatial.map C.spStart = d.spatial := by rw [hns.1]; rfl
+    rw [hsp]
     simp only [Trk.onStartList, List.reverse_nil, List.nil_append]
     cases d; simp_all
-  · intro _ _; simp [Trk.onStartKept]
-  · intro t ts iht ihts h hc
+  · intro _ _ _; simp [Trk.onStartKept]
+  · intro t ts iht ihts h hns hc
     rw [Trk.onStartKept, Trk.idle_not_removable t h.1]
-    simp [iht h.1 hc.1, ihts h.2 hc.2]
+    simp [iht h.1 hns.1 hc.1, ihts h.2 hns.2 hc.2]
 
 theorem Trk.onStartKept_idle_on {IS : S → Prop} {IE : E → Prop} (hN : C.StartNeutralOn IS IE) (ts : List (Trk ℝ S E P))
-    (h : Trk.IdleList ts) (hc : Trk.CompsOkList IS IE ts) : Trk.onStartKept C ts = ts := by
+    (h : Trk.IdleList ts) (hns : Trk.NoSpatialList ts) (hc : Trk.CompsOkList IS IE ts) : Trk.onStartKept C ts = ts := by
   induction ts with
   | nil => simp [Trk.onStartKept]
   | cons t ts ih =>
     rw [Trk.onStartKept, Trk.idle_not_removable t h.1]
-    simp [Trk.onStart_idle_on C hN t h.1 hc.1, ih h.2 hc.2]
+    simp [Trk.onStart_idle_on C hN t h.1 hns.1 hc.1, ih h.2 hns.2 hc.2]
 
-theorem Trk.onStart_idle (hN : C.StartNeutral) (t : Trk ℝ S E P) (h : Trk.Idle t) : Trk.onStart C t = t :=
-  Trk.onStart_idle_on C (Comps.StartNeutral.on C hN) t h (Trk.compsOk_true t)
+theorem Trk.onStart_idle (hN : C.StartNeutral) (t : Trk ℝ S E P) (h : Trk.Idle t) (hns : Trk.NoSpatial t) :
+    Trk.onStart C t = t :=
+  Trk.onStart_idle_on C (Comps.StartNeutral.on C hN) t h hns (Trk.compsOk_true t)
 
-theorem Trk.onStartKept_idle (hN : C.StartNeutral) (ts : List (Trk ℝ S E P)) (h : Trk.IdleList ts) :
-    Trk.onStartKept C ts = ts :=
-  Trk.onStartKept_idle_on C (Comps.StartNeutral.on C hN) ts h (Trk.compsOkList_true ts)
+theorem Trk.onStartKept_idle (hN : C.StartNeutral) (ts : List (Trk ℝ S E P)) (h : Trk.IdleList ts)
+    (hns : Trk.NoSpatialList ts) : Trk.onStartKept C ts = ts :=
+  Trk.onStartKept_idle_on C (Comps.StartNeutral.on C hN) ts h hns (Trk.compsOkList_true ts)
 
 /-- nothing in flight anywhere in the mixer -/
 structure Mixer.Idle (m : Mixer ℝ S E P) : Prop where
@@ -124,10 +164,10 @@ structure Mixer.Idle (m : Mixer ℝ S E P) : Prop where
 
 /-- **`on_start_processing` does nothing when nothing is in flight** (invariant-relative) -/
 theorem Mixer.onStart_idle_on {IS : S → Prop} {IE : E → Prop} (hN : C.StartNeutralOn IS IE) (m : Mixer ℝ S E P)
-    (h : Mixer.Idle m) (hc : Mixer.CompsOk IS IE m) : m.onStart C = m := by
+    (h : Mixer.Idle m) (hns : Mixer.NoSpatial m) (hc : Mixer.CompsOk IS IE m) : m.onStart C = m := by
   unfold Mixer.onStart
   have h1 : (Trk.onStartList C m.pendingSubTracks).reverse ++ Trk.onStartKept C m.subTracks = m.subTracks := by
-    rw [h.pending, Trk.onStartKept_idle_on C hN _ h.subs hc.subs]; simp [Trk.onStartList]
+    rw [h.pending, Trk.onStartKept_idle_on C hN _ h.subs hns hc.subs]; simp [Trk.onStartList]
   have h2 : (removeAndAdd (fun s : SendTrk ℝ E => s.marked) m.sendTracks m.pendingSendTracks).map (SendTrk.onStart C)
       = m.sendTracks := by
     rw [h.pendingSends]
@@ -161,8 +201,9 @@ theorem Mixer.onStart_idle_on {IS : S → Prop} {IE : E → Prop} (hN : C.StartN
   cases m; simp_all
 
 /-- **`on_start_processing` does nothing when nothing is in flight** -/
-theorem Mixer.onStart_idle (hN : C.StartNeutral) (m : Mixer ℝ S E P) (h : Mixer.Idle m) : m.onStart C = m :=
-  Mixer.onStart_idle_on C (Comps.StartNeutral.on C hN) m h (Mixer.compsOk_true m)
+theorem Mixer.onStart_idle (hN : C.StartNeutral) (m : Mixer ℝ S E P) (h : Mixer.Idle m) (hns : Mixer.NoSpatial m) :
+    m.onStart C = m :=
+  Mixer.onStart_idle_on C (Comps.StartNeutral.on C hN) m h hns (Mixer.compsOk_true m)
 
 /-! rendering keeps "nothing in flight" -/
 
@@ -215,6 +256,54 @@ theorem Mixer.spec_idle (m : Mixer ℝ S E P) (n : Nat) (dt : ℝ) (info : Info 
   simp only [Function.comp, SendTrk.process]
   exact ⟨by rw [e1]; exact (h.sends s1 hs1).1, by rw [e2]; exact (h.sends s1 hs1).2⟩
 
+/-! rendering keeps "no spatial track" -/
+
+theorem Trk.preUpdate_spatial (dt : ℝ) (info : Info ℝ) (n : Nat) (d : TrkData ℝ S E P) :
+    (Trk.preUpdate dt info n d).spatial = d.spatial := by
+  unfold Trk.preUpdate Trk.publish; dsimp only
+  split <;> rfl
+
+theorem Trk.spec_noSpatial (t : Trk ℝ S E P) :
+    ∀ (dt : ℝ) (pinfo : Info ℝ) (n : Nat) (sends : List (SendTrk ℝ E)), Trk.NoSpatial t →
+      Trk.NoSpatial (Trk.spec C dt pinfo n t sends).1 := by
+  refine Trk.rec
+    (motive_1 := fun t => ∀ (dt : ℝ) (pinfo : Info ℝ) (n : Nat) (sends : List (SendTrk ℝ E)), Trk.NoSpatial t →
+      Trk.NoSpatial (Trk.spec C dt pinfo n t sends).1)
+    (motive_2 := fun ts => ∀ (dt : ℝ) (info : Info ℝ) (n : Nat) (sends : List (SendTrk ℝ E)), Trk.NoSpatialList ts →
+      Trk.NoSpatialList (Trk.specChildren C dt info n ts sends).1) ?_ ?_ ?_ t
+  · intro d children pending ihc _ dt pinfo n sends h
+    obtain ⟨hd, hc⟩ := h
+    have hd2 : (Trk.preUpdate dt (Trk.trackInfo C d pinfo) n d).spatial = none := by
+      rw [Trk.preUpdate_spatial]; exact hd
+    rw [Trk.spec]; dsimp only
+    split
+    · exact ⟨hd2, hc⟩
+    · unfold Trk.specPost
+      refine ⟨?_, ihc dt _ n sends hc⟩
+      show (Trk.spatialStage C dt _ n (Trk.preUpdate dt (Trk.trackInfo C d pinfo) n d).spatial _).1 = none
+      rw [hd2]; rfl
+  · intro dt info n sends _; simp [Trk.specChildren, Trk.NoSpatialList]
+  · intro t ts iht ihts dt info n sends h
+    rw [Trk.specChildren]; exact ⟨iht dt info n sends h.1, ihts dt info n _ h.2⟩
+
+theorem Trk.specChildren_noSpatial (ts : List (Trk ℝ S E P)) (dt : ℝ) (info : Info ℝ) (n : Nat)
+    (sends : List (SendTrk ℝ E)) (h : Trk.NoSpatialList ts) :
+    Trk.NoSpatialList (Trk.specChildren C dt info n ts sends).1 := by
+  induction ts generalizing sends with
+  | nil => simp [Trk.specChildren, Trk.NoSpatialList]
+  | cons t ts ih => rw [Trk.specChildren]; exact ⟨Trk.spec_noSpatial C t dt info n sends h.1, ih _ h.2⟩
+
+theorem Mixer.spec_noSpatial (m : Mixer ℝ S E P) (n : Nat) (dt : ℝ) (info : Info ℝ) (h : Mixer.NoSpatial m) :
+    Mixer.NoSpatial (Mixer.spec C m n dt info).1 :=
+  Trk.specChildren_noSpatial C _ dt info n _ h
+
+theorem Trk.resize_noSpatial (k : Nat) (t : Trk ℝ S E P) : Trk.NoSpatial t → Trk.NoSpatial (Trk.resize k t) := by
+  refine Trk.rec (motive_1 := fun t => Trk.NoSpatial t → Trk.NoSpatial (Trk.resize k t))
+    (motive_2 := fun ts => Trk.NoSpatialList ts → Trk.NoSpatialList (Trk.resizeList k ts)) ?_ ?_ ?_ t
+  · intro d c p ihc _ h; rw [Trk.resize]; exact ⟨h.1, ihc h.2⟩
+  · intro _; simp [Trk.resizeList, Trk.NoSpatialList]
+  · intro t ts iht ihts h; rw [Trk.resizeList]; exact ⟨iht h.1, ihts h.2⟩
+
 theorem Trk.resize_idle (k : Nat) (t : Trk ℝ S E P) : Trk.Idle t → Trk.Idle (Trk.resize k t) := by
   refine Trk.rec (motive_1 := fun t => Trk.Idle t → Trk.Idle (Trk.resize k t))
     (motive_2 := fun ts => Trk.IdleList ts → Trk.IdleList (Trk.resizeList k ts)) ?_ ?_ ?_ t
@@ -256,6 +345,15 @@ theorem Renderer.specChunks_idle (hC : C.LenPres) (ch : Nat) (ns : List Nat) :
     simp only [Renderer.specChunks]
     exact ih _ (Mixer.spec_idle C r.mixer n r.dt _ h)
 
+theorem Renderer.specChunks_noSpatial (ch : Nat) (ns : List Nat) :
+    ∀ (r : Renderer ℝ S E P X), Mixer.NoSpatial r.mixer → Mixer.NoSpatial (Renderer.specChunks C V ch r ns).1.mixer := by
+  induction ns with
+  | nil => intro r h; exact h
+  | cons n ns ih =>
+    intro r h
+    simp only [Renderer.specChunks]
+    exact ih _ (Mixer.spec_noSpatial C r.mixer n r.dt _ h)
+
 /-- with nothing in flight, whole device callbacks are just the `process` calls (invariant-relative) -/
 theorem Renderer.runDeviceCallbacks_eq_on {IS : S → Prop} {IE : E → Prop} {IX : X → Prop} {B : Nat} {dt : ℝ}
     (hC : C.LenPres) (hH : C.ChunkHomOn IS IE B dt) (hV : V.StaticOn IX)
@@ -267,7 +365,7 @@ theorem Renderer.runDeviceCallbacks_eq_on {IS : S → Prop} {IE : E → Prop} {I
   | cons f fs ih =>
     intro r hq hi
     have hos : r.onStart C V = r := by
-      unfold Renderer.onStart; rw [Mixer.onStart_idle_on C hN r.mixer hi hq.comps, hVs _ hq.env]
+      unfold Renderer.onStart; rw [Mixer.onStart_idle_on C hN r.mixer hi hq.quiet.2.noSpatial hq.comps, hVs _ hq.env]
     have hb := chunkSizes_bound f r.ibs f
     obtain ⟨h1, _⟩ := Renderer.runChunks_spec C V hC ch r hq.quiet.1 _ (fun n hn => (hb n hn).1)
     have q := Renderer.specChunks_quiet_on C V hC hH hV ch _ r hq (fun n hn => (hb n hn).1)
